@@ -324,3 +324,13 @@ Proof.
   vm_compute. repeat split.
   intros t Ht. do 5 (destruct t as [|t]; [reflexivity|]). lia.
 Qed.
+
+(* the same hypothesis in a non-initial state (after a wait, a hand-off, an extra release and a cancelled waiter) *)
+Example ex_grant_only_if_free_hyp2 :
+  let s := final step (init false 1 (Some 2))
+             [AcqBegin 1; Resume 1; AcqBegin 2; AcqBegin 3; Cancel 2; Release 1; Resume 2; Resume 3; Release 1] in
+  value s = 1 /\ held s = [3] /\
+  length (held (fst (step s (AcqBegin 1)))) + length (infl (fst (step s (AcqBegin 1))))
+  > length (held s) + length (infl s).
+Proof. vm_compute. repeat split; lia. Qed.
+
